@@ -949,6 +949,9 @@ struct Shared {
     /// barrier generation
     gen: AtomicUsize,
     finished: AtomicUsize,
+    /// set before the drop-all finale: chaos tasks that have not fired yet give up their handle
+    cancel_chaos: AtomicUsize,
+    chaos_done: AtomicUsize,
 }
 
 /// The body of task 0.
@@ -974,7 +977,7 @@ pub fn run_plan(plan: &Plan) {
         }
     };
     let n = plan.clients.len();
-    let shared = Arc::new(Shared { arrived: AtomicUsize::new(0), gen: AtomicUsize::new(0), finished: AtomicUsize::new(0) });
+    let shared = Arc::new(Shared { arrived: AtomicUsize::new(0), gen: AtomicUsize::new(0), finished: AtomicUsize::new(0), cancel_chaos: AtomicUsize::new(0), chaos_done: AtomicUsize::new(0) });
     let n_barriers = plan.clients.iter().map(|c| c.iter().filter(|o| matches!(o, Op::Barrier)).count()).max().unwrap_or(0);
 
     for (ci, script) in plan.clients.iter().enumerate() {
@@ -1021,11 +1024,16 @@ pub fn run_plan(plan: &Plan) {
     for (xi, ch) in plan.chaos.iter().enumerate() {
         let handle = api.clone_box();
         let ch = ch.clone();
+        let sh = shared.clone();
         rt::spawn_task(&format!("x{}", xi), rt::Kind::Chaos, move || {
             let at = ch.at_step;
-            rt::block("chaos.wait", &move || rt::STEPS.load(Ordering::SeqCst) >= at);
-            do_op(handle.as_ref(), 100 + xi, 0, &ch.op);
+            let shp = sh.clone();
+            rt::block("chaos.wait", &move || rt::STEPS.load(Ordering::SeqCst) >= at || shp.cancel_chaos.load(Ordering::SeqCst) > 0);
+            if sh.cancel_chaos.load(Ordering::SeqCst) == 0 {
+                do_op(handle.as_ref(), 100 + xi, 0, &ch.op);
+            }
             drop(handle);
+            sh.chaos_done.fetch_add(1, Ordering::SeqCst);
         });
     }
 
@@ -1085,6 +1093,12 @@ pub fn run_plan(plan: &Plan) {
             std::mem::forget(api);
         }
         Finale::DropAll => {
+            // every handle must really be gone: chaos tasks that have not fired yet are cancelled
+            // and the last handle is dropped only after all of them have let go of theirs
+            shared.cancel_chaos.store(1, Ordering::SeqCst);
+            let sh = shared.clone();
+            let n_chaos = plan.chaos.len();
+            rt::block("controller.chaos-join", &move || sh.chaos_done.load(Ordering::SeqCst) >= n_chaos);
             log(EvKind::Note("drop_all".into()));
             drop(api);
             // give the workers a fair chance to notice: they need scheduling points
